@@ -1,25 +1,37 @@
 (* C16 — Neuron annotations: the in-memory head equals the store; updates merge fields.
    Only statements, each closed by [exact] of a lemma proved in Proofs/, and Print Assumptions.
-   [repaired] is the model of datatype/neuronjson with repo_patches/C16-{1..6}-fix.diff applied,
-   [shipped] the model of the code before them (Model/NJ.v, record [variant]). *)
+   [repaired] is the model of datatype/neuronjson with repo_patches/C16-{1..9}-fix.diff applied,
+   [interim] with only the first six, [shipped] with none (Model/NJ.v, record [variant]). *)
 From DV Require Import Base.Prelude Model.NJ Proofs.NJBase Proofs.NJ Proofs.NJUpdate.
 Local Open Scope N_scope.
 
 (* For EVERY history of POST key / POST keyvalues (plain, replace, conditional fields; accepted or
-   rejected), DELETE key, schema POST/DELETE, commit, newversion and restart, and for every read
-   request (GET key, keys, all, fields, fields?counts=true, keyrange, keyrangevalues, keyvalues,
-   query in every form, schema metadata) with any show= / fields= options and any regular-expression
-   engine [rx]: the in-memory path and the store path give the same answer on the head, and so
-   does the in-memory path after the memdb has been rebuilt from the store (restart). *)
+   rejected, also by the JSON schema in force), DELETE key, schema POST/DELETE, commit, newversion
+   and restart, and for every read request (GET key, keys, all, fields, fields?counts=true,
+   fieldtimes, keyrange, keyrangevalues and keyvalues in their JSON / tar / protobuf forms, query in
+   every form, schema metadata, HEAD key, HEAD schema, and which JSON schema validates POSTs) with
+   any show= / fields= options and any regular-expression engine [rx]: the in-memory path and the
+   store path give the same answer on the head, and so does the in-memory path after the memdb
+   has been rebuilt from the store (restart). *)
 Theorem C16_mem_eq_store : forall (rx : bytes -> option (bytes -> bool)) (h : list op) (s : state),
   run repaired init_state h = Ok s ->
   forall r : rreq,
-    rres_equiv (read_mem rx repaired (st_mem s) (st_mmeta s) r) (read_store rx repaired (st_head s) r)
-    /\ forall s', reload repaired s = Ok s' ->
-         st_head s' = st_head s
-         /\ rres_equiv (read_mem rx repaired (st_mem s') (st_mmeta s') r) (read_store rx repaired (st_head s) r).
+    rres_equiv (read_mem rx repaired s r) (read_store rx repaired (st_head s) r)
+    /\ st_head (reload repaired s) = st_head s
+    /\ rres_equiv (read_mem rx repaired (reload repaired s) r) (read_store rx repaired (st_head s) r).
 Proof. exact mem_eq_store. Qed.
 Print Assumptions C16_mem_eq_store.
+
+(* The same for EVERY version of the repository, with a second branch and the store's "inmemory"
+   configuration in the histories (POST branch, requests on the branch head, changes of the
+   configuration, restarts): whichever db getMemDBbyVersion picks for a version (the HEAD db of
+   master or of the branch, a read-only UUID db, or none) the answer is the one its store gives. *)
+Theorem C16_refs_eq_store : forall (rx : bytes -> option (bytes -> bool)) (h : list op) (s : state),
+  run repaired init_state h = Ok s ->
+  forall (ref : vref) (v : vstore) (r : rreq), resolve s ref = Some v ->
+    exists x, read_ref rx repaired s ref r = Some x /\ rres_equiv x (read_store rx repaired v r).
+Proof. exact refs_eq_store. Qed.
+Print Assumptions C16_refs_eq_store.
 
 (* What the driver observes: after commit + newversion the committed parent (version 1, served by
    the store path) and the new head (version 0, served from memory) answer alike, and the parent
@@ -89,43 +101,70 @@ Proof. exact shipped_delete_refuted. Qed.
 (* (b) POST {"a":1}, POST {"a":null}: fields?counts=true reports a:1 from memory, no "a" from the store *)
 Theorem C16_shipped_counter_refuted :
   option_map (fun p => (cnt_of fa (fst p), cnt_of fa (snd p))) (both shipped h_null RFieldCounts) = Some (Some 1%Z, None)
-  /\ option_map (fun p => (cnt_of fa (fst p), cnt_of fa (snd p))) (both (mkVar true false true true true true) h_null RFieldCounts) = Some (Some 1%Z, None).
+  /\ option_map (fun p => (cnt_of fa (fst p), cnt_of fa (snd p))) (both (mkVar true false true true true true true true true) h_null RFieldCounts) = Some (Some 1%Z, None).
 Proof. exact shipped_counter_refuted. Qed.
 
 (* (e) counters that dropped to zero are reported from memory; fields lists "" for them *)
 Theorem C16_zero_counter_refuted :
-  let V := mkVar true true false true true true in
+  let V := mkVar true true false true true true true true true in
   option_map (fun p => (cnt_of fa (fst p), cnt_of fa (snd p))) (both V h_zero RFieldCounts) = Some (Some 0%Z, None)
   /\ exists l l', both V h_zero RFields = Some (XNames l, XNames l') /\ In [] l /\ ~ In [] l'.
 Proof. exact zero_counter_refuted. Qed.
 
 (* (d) the store path ignores fields= in query and strips requested stamps in keyrangevalues *)
 Theorem C16_store_select_refuted :
-  let V := mkVar true true true false true true in
+  let V := mkVar true true true false true true true true true in
   both V h_two (RQuery [[(fa, JNum 1)]] false [fb] (mkShow false false))
     = Some (XObjs [[(s_bodyid, JNum 10); (fb, JNum 2)]],
             XObjs [[(s_bodyid, JNum 10); (fb, JNum 2); (fa, JNum 1)]])
-  /\ both V h_two (RKeyRangeValues [48] [97] [fuser fa] (mkShow false false))
+  /\ both V h_two (RKeyRangeValues [48] [97] [fuser fa] (mkShow false false) 0)
     = Some (XKVs [(10, [(s_bodyid, JNum 10); (fuser fa, JStr u1)])], XKVs [(10, [(s_bodyid, JNum 10)])]).
 Proof. exact store_select_refuted. Qed.
 
 (* (c) ids 5, 10, 100: keyrange/1/15 and keyrangevalues/1/15 select by string order on the store path *)
 Theorem C16_store_range_refuted :
-  let V := mkVar true true true true false true in
+  let V := mkVar true true true true false true true true true in
   option_map (fun p => (kv_ids (fst p), kv_ids (snd p))) (both V h_digits (RKeyRange [49] [49; 53])) = Some ([5; 10], [10])
   /\ option_map (fun p => (kv_ids (fst p), kv_ids (snd p)))
-       (both V h_digits (RKeyRangeValues [49] [49; 53] [] (mkShow false false))) = Some ([5; 10], [10; 100]).
+       (both V h_digits (RKeyRangeValues [49] [49; 53] [] (mkShow false false) 0)) = Some ([5; 10], [10; 100]).
 Proof. exact store_range_refuted. Qed.
 
 (* (i) POST json_schema, commit, restart, newversion: the child's GET json_schema is 404 from memory *)
 Theorem C16_meta_reload_refuted :
-  both (mkVar true true true true true false) h_schema (RMeta 0) = Some (XBytes None, XBytes (Some [123; 125])).
+  both (mkVar true true true true true false true true true) h_schema (RMeta 0) = Some (XBytes None, XBytes (Some [123; 125])).
 Proof. exact meta_reload_refuted. Qed.
+
+(* (f) fieldtimes on the code with the first six repairs: the head reports the stamp of the last
+   POSTed body (2020), the restarted head the newest (2022), committed versions answer 400 *)
+Theorem C16_fieldtimes_refuted :
+  match run interim init_state h_ftimes with
+  | Ok s => (time_of fa (read_mem no_rx interim s RFieldTimes),
+             time_of fa (read_mem no_rx interim (reload interim s) RFieldTimes),
+             read_store no_rx interim (st_head s) RFieldTimes)
+  | _ => (None, None, XPanic)
+  end = (Some y2020, Some y2022, XErr).
+Proof. exact fieldtimes_refuted. Qed.
+
+(* (h) POST json_schema, DELETE json_schema: the head still validates against the deleted schema *)
+Theorem C16_schema_delete_refuted :
+  both interim h_schdel RSchemaInForce = Some (XBytes (Some [123; 125]), XBytes None).
+Proof. exact schema_delete_refuted. Qed.
+
+(* (m), (n) initMemoryDB before repair 9: a configured branch that does not exist yet gets an empty
+   db that later serves the branch head; a configured open version diverts the updates from the
+   HEAD db of master.  With the repair both versions answer like their stores. *)
+Theorem C16_init_registration_refuted :
+  ref_both interim h_bcfg (VB 0) RKeys = Some (Some (XIds []), Some (XIds [10]))
+  /\ ref_both interim h_static_open (VM 1) RKeys = Some (Some (XIds [10]), Some (XIds [10; 20]))
+  /\ ref_both repaired h_bcfg (VB 0) RKeys = Some (Some (XIds [10]), Some (XIds [10]))
+  /\ ref_both repaired h_static_open (VM 1) RKeys = Some (Some (XIds [10; 20]), Some (XIds [10; 20])).
+Proof. exact init_registration_refuted. Qed.
 
 (* Non-vacuity: a history with every kind of request runs to completion (so the hypothesis of
    C16_mem_eq_store is inhabited by a non-trivial state), and a concrete merge. *)
 Example C16_history_inhabited :
-  exists s, run repaired init_state h_sample = Ok s /\ map fst (m_data (st_mem s)) = [5; 10] /\ length (st_parents s) = 1%nat.
+  exists s, run repaired init_state h_sample = Ok s /\ map fst (m_data (st_mem s)) = [5; 10] /\ length (st_parents s) = 1%nat
+            /\ option_map (fun m => map fst (m_data m)) (st_bmem s) = Some [5; 9; 100] /\ map fst (st_static s) = [VM 0].
 Proof. exact sample_runs. Qed.
 Example C16_merge_concrete :
   let o := [(s_bodyid, JNum 7); (fa, JNum 1); (fuser fa, JStr u1); (ftime fa, JStr [48]); (fb, JStr [120])] in
